@@ -252,3 +252,53 @@ Definition ct_eval (t : ctable) (s c : nat) : nat :=
   let k := nth s (ct_base t) 0 + c in
   if Nat.eqb (nth k (ct_check t) (ct_n t)) s then nth k (ct_value t) 0 else nth s (ct_default t) 0.
 
+
+(* ================= accessors of Automaton and State (public API tied to C14) =================
+   Automaton::{initial_state, state, states, num_states, num_final_states, final_states,
+   default_successor, class_next, char_set_next} and State::{num_successors, has_default_successor,
+   default_successor, valid_class_id, char_maps_to_default, char_classes, class_of_char, char_picks,
+   char_ranges}.  A `&State` handed out by the automaton is the state record; None = panic
+   (`self.states[i]` out of bounds, unwrap() of a missing default). *)
+(* &self.states[i] *)
+Definition a_state_at (a : automaton) (i : nat) : option astate := nth_error (astates a) i.
+Definition a_initial_state (a : automaton) : option astate := a_state_at a (initial a).
+Definition a_states (a : automaton) : list astate := astates a.
+Definition a_num_states (a : automaton) : nat := num_states a.
+Definition a_num_final_states (a : automaton) : nat := num_final a.
+(* FinalStateIterator: the states whose is_final flag is set, in index order *)
+Definition a_final_states (a : automaton) : list astate := filter a_final (astates a).
+(* Automaton::default_successor(s): s.default_successor.map(|i| &self.states[i]);
+   outer None = index out of bounds *)
+Definition a_default_successor (a : automaton) (s : astate) : option (option astate) :=
+  match a_default s with
+  | None => Some None
+  | Some i => do t <- a_state_at a i; Some (Some t)
+  end.
+(* Automaton::class_next(s, cid): index taken from s, then &self.states[i].
+   debug_assert!(s.valid_class_id(cid)) is a debug assertion, not behaviour (Base conventions): the
+   theorems call class_next on valid class ids only, and so do char_set_next / next / the harness. *)
+Definition a_class_next (a : automaton) (s : astate) (cid : classid) : option astate :=
+  do i <- match cid with CInt i => nth_error (a_succ s) i | CComp => a_default s end;
+  a_state_at a i.
+(* Automaton::char_set_next(s, set): Some None = Err(AmbiguousCharSet) *)
+Definition a_char_set_next (a : automaton) (s : astate) (set : cs) : option (option astate) :=
+  do r <- pclass_of_set (a_classes s) set;
+  match r with
+  | None => Some None
+  | Some cid => do t <- a_class_next a s cid; Some (Some t)
+  end.
+
+Definition s_num_successors (s : astate) : nat := plen (a_classes s).
+Definition s_has_default_successor (s : astate) : bool :=
+  match a_default s with Some _ => true | None => false end.
+Definition s_default_successor (s : astate) : option nat := a_default s.
+Definition s_valid_class_id (s : astate) (cid : classid) : bool := pvalid (a_classes s) cid.
+(* has_default_successor() && class_of_char(c) == Complement  (short-circuit) *)
+Definition s_char_maps_to_default (s : astate) (c : N) : option bool :=
+  if s_has_default_successor s then
+    do cid <- pclass_of_char (a_classes s) c; Some (classid_eqb cid CComp)
+  else Some false.
+Definition s_char_classes (s : astate) : list classid := pclass_ids (a_classes s).
+Definition s_class_of_char (s : astate) (x : N) : option classid := pclass_of_char (a_classes s) x.
+Definition s_char_picks (s : astate) : list N := ppicks (a_classes s).
+Definition s_char_ranges (s : astate) : list cs := ivs (a_classes s).
